@@ -997,6 +997,7 @@ func TestC19(t *testing.T) {
 		serverFamily(r, t, u)
 		ttlFamily(r, t, u)
 		clientFamily(r, t, u)
+		lifecycleFamily(r, t, u)
 	}
 	concFamily(r, t, u, race)
 
@@ -1024,6 +1025,8 @@ func TestC19(t *testing.T) {
 	r.Require("ttl_challenge_rejected_after_expiry", 20)
 	r.Require("ttl_token_accepted_at_or_before_expiry", 20)
 	r.Require("ttl_token_rejected_after_expiry", 20)
+	r.Require("lifecycle_proof_bound_to_the_new_key_accepted", 2)
+	r.Require("lifecycle_long_secret_sessions", 4)
 	// client
 	r.Require("cli_valid_accepted", 50)
 	r.Require("cli_mutated_rejected", 1000)
